@@ -86,7 +86,8 @@ def gen_scenario(rng, cfg):
             text = gen_line(rng, k)
             if kind == "plain" and rng.chance(12):
                 # a line that starts no command is a submitted line all the same
-                text = "# note %d %s" % (k, gen_word(rng, 3, hostile=60).replace("\\", ""))
+                # (no trailing blank: recording trims the line's ends, which the statement does not forbid)
+                text = ("# note %d %s" % (k, gen_word(rng, 3, hostile=60).replace("\\", ""))).strip()
             if cfg.get("repeat_texts") and rng.chance(50):
                 text = "D%d=same" % rng.below(3)      # the same line submitted again later (not immediately)
             if kind == "space" and rng.chance(40):
